@@ -188,6 +188,22 @@ def marker_function(name, timeout_ms=None, vc_slice=None):
     return verify.verify_function(ix, th, w, use_contracts=use, contracts=contracts, loop_specs=C.loop_specs(th), timeout_ms=timeout_ms, vc_slice=vc_slice)
 
 
+def build_markers(timeout_ms=None):
+    """C03 structural part: _build_markers against the transcription of packaging's _evaluate_markers fold"""
+    from pyvc import extract, verify
+    from contracts import build_markers as BM
+    ix = extract.Index()
+    th, ax, contracts, c, specs = BM.setup(ix)
+
+    class Wrapped(type(c)):
+        def cases(self, th2):
+            for nm, args, pre in c.cases(th2):
+                yield nm, args, list(pre) + (ax if nm == "list" else [])
+    w = Wrapped.__new__(Wrapped)
+    w.__dict__.update(c.__dict__)
+    return verify.verify_function(ix, th, w, use_contracts=list(contracts), contracts=contracts, loop_specs=specs, timeout_ms=timeout_ms)
+
+
 def spec_c14(chunk=None, timeout_ms=None):
     from pyvc import verify
     ix, th, contracts, CR, CU, L, T = _spec_env()
@@ -203,7 +219,7 @@ def spec_lemmas(timeout_ms=None):
     rep = verify.Report()
     rep.functions["lemma:specifiers"] = {"hash": None, "mode": "closed mathematical lemma (no code)", "paths": 0, "cases": 0}
     for name, hyps, goal in L.lemmas():
-        st, secs, be, m = verify.solve(hyps, goal, timeout_ms)
+        st, secs, be, m = verify.solve(hyps, goal, timeout_ms or 120000)      # closed lemmas: two of them need ~15 s
         rep.add(f"lemma:specifiers#{name}", st, secs, be, model={"z3_model": str(m)[:800]} if st in ("sat", "candidate") else None)
         rep.functions["lemma:specifiers"]["cases"] += 1
     return rep
